@@ -14,6 +14,7 @@ EXPLANATION = (
     "forgets its guard, then casts the slice once; the clamped and unclamped files are equal modulo the rename table; (GUARD-4) Vec / "
     "Box<[T]> impls map in place with the conversion function of the same trait (address/length/capacity: C04 CAST-3/ALLOC). "
     "Not decided: value equality beyond 'the stored value is the out-of-place conversion of the original'."
+    " GUARD-SIG: chaining methods return the guard kind they are named after with the original type U kept (compiler's type of the body)."
 )
 
 FILES = {"clamped": "convert/from_into_color_mut.rs", "unclamped": "convert/from_into_color_unclamped_mut.rs"}
